@@ -25,7 +25,8 @@ inline std::vector<double> gen_breaks(uint64_t seed, int S, int mode)
 {
     Rng r(seed, 0xb4);
     std::vector<double> b(S + 1);
-    b[0] = (mode & 4) ? 0.0 : r.real(-1000.0, 1000.0);
+    // start: anywhere, exactly zero, or negative such that t = 0 falls somewhere inside the range
+    b[0] = (mode & 4) ? (r.chance(0.5) ? 0.0 : -r.real(0.0, 0.75 * S)) : r.real(-1000.0, 1000.0);
     for (int i = 0; i < S; ++i)
     {
         double w;
@@ -142,8 +143,14 @@ struct World
         frac = std::fabs(frac);
         frac -= std::floor(frac);
         double span = b[S] - b[0];
-        switch (((tm % 7) + 7) % 7)
+        switch (((tm % 8) + 8) % 8)
         {
+        case 7:
+        {
+            // "round" times a caller is likely to pass and an implementation is likely to use as a sentinel
+            static const double special[] = {0.0, -0.0, 1.0, -1.0, 0.5, 2.0};
+            return special[(size_t)(((idx % 6) + 6) % 6)];
+        }
         case 0: return b[((idx % (S + 1)) + (S + 1)) % (S + 1)];
         case 1: return std::nextafter(b[((idx % (S + 1)) + (S + 1)) % (S + 1)], -INFINITY);
         case 2: return std::nextafter(b[((idx % (S + 1)) + (S + 1)) % (S + 1)], INFINITY);
@@ -388,7 +395,7 @@ struct World
                 std::vector<double> ts;
                 for (int q = 0; q < n; ++q)
                 {
-                    int tmq = (int)r.below(7);
+                    int tmq = (int)r.below(8);
                     int64_t iq = (int64_t)r.below(64);
                     double fq = r.unit();
                     ts.push_back(pick_time(H.m, tmq, iq, fq));
@@ -733,11 +740,11 @@ inline Plan gen_plan(uint64_t seed, uint64_t index, Tier tier, int profile, int 
         switch (o.kind)
         {
         case OP_EVAL: case OP_EVAL_ENUM:
-            o.i = {(int64_t)r.below(kHandles), (int64_t)r.below(7), (int64_t)r.below(64), (int64_t)r.below(16)};
+            o.i = {(int64_t)r.below(kHandles), (int64_t)r.below(8), (int64_t)r.below(64), (int64_t)r.below(16)};
             o.d = {r.unit()};
             break;
         case OP_EVAL_HINT: case OP_HINT_SWEEP:
-            o.i = {(int64_t)r.below(kHandles), (int64_t)r.below(kHints), (int64_t)r.below(7), (int64_t)r.below(64), (int64_t)r.below(32), (int64_t)r.below(6)};
+            o.i = {(int64_t)r.below(kHandles), (int64_t)r.below(kHints), (int64_t)r.below(8), (int64_t)r.below(64), (int64_t)r.below(32), (int64_t)r.below(6)};
             o.d = {r.unit()};
             break;
         case OP_HINT_CORRUPT: o.i = {(int64_t)r.below(kHints), (int64_t)r.below(9), (int64_t)r.below(kHandles), (int64_t)r.below(64)}; break;
@@ -747,7 +754,7 @@ inline Plan gen_plan(uint64_t seed, uint64_t index, Tier tier, int profile, int 
             o.d = {r.unit()};
             break;
         case OP_DERIV:
-            o.i = {(int64_t)r.below(kHandles), (int64_t)r.below(64), (int64_t)r.below(7), (int64_t)r.below(64), (int64_t)r.below(3)};
+            o.i = {(int64_t)r.below(kHandles), (int64_t)r.below(64), (int64_t)r.below(8), (int64_t)r.below(64), (int64_t)r.below(3)};
             o.d = {r.unit()};
             break;
         case OP_DERIV_KEEP: o.i = {(int64_t)r.below(kHandles), (int64_t)r.below(kHandles), (int64_t)r.below(12)}; break;
@@ -771,8 +778,8 @@ inline Plan gen_plan(uint64_t seed, uint64_t index, Tier tier, int profile, int 
         {
             Op f;
             f.kind = (last == OP_HINT_CORRUPT) ? OP_EVAL_HINT : (last == OP_BAD_INIT ? OP_UPDATE : OP_EVAL);
-            if (f.kind == OP_EVAL) { f.i = {(last == OP_UPDATE || last == OP_RESPLIT) ? p.ops.back().i[0] : p.ops.back().i[1], (int64_t)r.below(7), (int64_t)r.below(64), (int64_t)r.below(16)}; f.d = {r.unit()}; }
-            else if (f.kind == OP_EVAL_HINT) { f.i = {(int64_t)r.below(kHandles), p.ops.back().i[0], (int64_t)r.below(7), (int64_t)r.below(64), (int64_t)r.below(32), 0}; f.d = {r.unit()}; }
+            if (f.kind == OP_EVAL) { f.i = {(last == OP_UPDATE || last == OP_RESPLIT) ? p.ops.back().i[0] : p.ops.back().i[1], (int64_t)r.below(8), (int64_t)r.below(64), (int64_t)r.below(16)}; f.d = {r.unit()}; }
+            else if (f.kind == OP_EVAL_HINT) { f.i = {(int64_t)r.below(kHandles), p.ops.back().i[0], (int64_t)r.below(8), (int64_t)r.below(64), (int64_t)r.below(32), 0}; f.d = {r.unit()}; }
             else { f.i = {p.ops.back().i[0], (int64_t)pick_S(), (int64_t)pick_nc(), (int64_t)r.below(1u << 30), (int64_t)r.below(8), 0}; }
             p.ops.push_back(std::move(f));
         }
